@@ -156,6 +156,13 @@ def run(chk):
             want = tr if (tbl['noop'] or not obs['inv']) else m.invert(tr)
             if m.deinvert(tr) != want:
                 chk.fail('deinvert', f'deinvert wrong for role {role!r} (noop={tbl["noop"]})', case)
+            # the same laws on a self-loop and on a constant target (the laws do not look at the ends)
+            for tr2 in (('a', role, 'a'), ('a', role, None), ('a', role, '"s"')):
+                if m.invert(tr2) != (tr2[2], m.invert_role(role), tr2[0]):
+                    chk.fail('swap', f'invert does not swap source/target of {tr2!r}', case)
+                want2 = tr2 if (tbl['noop'] or not obs['inv']) else m.invert(tr2)
+                if m.deinvert(tr2) != want2:
+                    chk.fail('deinvert', f'deinvert({tr2!r}) wrong (noop={tbl["noop"]})', case)
             # ---------------- correspondence requests -----------------------------------
             requests.append([1, wm, e_str(role)])
             expect.append((case, 'canon', c))
